@@ -10,7 +10,7 @@
   yield / next-pointer load or CAS of any thread, or a call / return), any key multiset, any number
   of growth steps.  `Reach hash s` = `s` is such a state.
 -/
-import Babylon.Swiss.ConcThm
+import Babylon.Swiss.ConcHist
 
 namespace Babylon.Properties.C03
 open Babylon.Core Babylon.Swiss Babylon.Swiss.Conc
@@ -195,6 +195,44 @@ theorem swiss_find_after_insert_pending (hash : Nat → Nat) {s : State} (h : Re
     obtain ⟨_, _, _, _, _, hmm⟩ := hthr
     obtain ⟨e1, e2, e3⟩ := hmm tb i hm hu
     subst e1 e2 e3; rfl
+
+/-- **swiss_find_after_insert, on the history alone.**  If a call for a key returned bucket
+`(tb, i)` (event `q1`), and a later call `p2` of thread `t2` for the same key — a `find` or an
+`emplace`, on the set, or on the fixed table if `tb = 0` — returns at `q2` (the first event of `t2`
+after `p2`), then it returns exactly that bucket with `inserted = false`. -/
+theorem swiss_find_after_insert_history (hash : Nat → Nat) {s : State} (h : Reach hash s) {q1 p2 q2 : Nat}
+    (h12 : q1 < p2) (h22 : p2 < q2)
+    {t1 : Nat} {k1 : Kind} {e1 : Elem} {tb i : Nat} {ins1 b1 : Bool} {m1 : Option (Nat × Nat)}
+    (hq1 : s.log[q1]? = some (.ret t1 k1 e1 (.slot tb i ins1) b1 m1))
+    {t2 : Nat} {k2 : Kind} {e2 : Elem} (hp2 : s.log[p2]? = some (.call t2 k2 e2))
+    {k2' : Kind} {e2' : Elem} {r : Res} {b2 : Bool} {m2 : Option (Nat × Nat)}
+    (hq2 : s.log[q2]? = some (.ret t2 k2' e2' r b2 m2))
+    (hbetween : ∀ x, p2 < x → x < q2 → ∀ ev, s.log[x]? = some ev → evTid ev ≠ t2)
+    (hkey : e2.1 = e1.1) (hu : k2.isSet = true ∨ tb = 0) :
+    k2' = k2 ∧ e2' = e2 ∧ r = .slot tb i false := by
+  obtain ⟨p, hp1, _, hp3, hp4, hp5⟩ := (reachable_hist h).returned q2 t2 k2' e2' r b2 m2 hq2
+  have hpe : p = p2 := by
+    rcases Nat.lt_trichotomy p p2 with hlt | heq | hgt
+    · exact absurd rfl (hp4 p2 hlt h22 _ hp2)
+    · exact heq
+    · exact absurd rfl (hbetween p hgt hp1 _ hp3)
+  subst hpe
+  rw [hp2] at hp3
+  simp only [Option.some.injEq, Event.call.injEq, true_and] at hp3
+  obtain ⟨rfl, rfl⟩ := hp3
+  refine ⟨rfl, rfl, ?_⟩
+  have hmem1 : Event.ret t1 k1 e1 (.slot tb i ins1) b1 m1 ∈ s.log := List.mem_of_getElem? hq1
+  have hmemT : Event.ret t1 k1 e1 (.slot tb i ins1) b1 m1 ∈ s.log.take p := by
+    apply List.mem_of_getElem? (i := q1)
+    rw [List.getElem?_take_of_lt h12]; exact hq1
+  obtain ⟨tb', i', hd⟩ := doneOf_isSome hmemT hkey.symm
+  obtain ⟨t3, k3, e3, ins3, b3, m3, hmem3, hk3⟩ := doneOf_some hd
+  have hmem3' : Event.ret t3 k3 e3 (.slot tb' i' ins3) b3 m3 ∈ s.log := List.mem_of_mem_take hmem3
+  obtain ⟨e4, e5, _⟩ := swiss_same_slot hash h hmem3' hmem1 (hk3.trans hkey)
+  subst e4 e5
+  rw [hd] at hp5
+  subst hp5
+  exact swiss_find_after_insert hash h (List.mem_of_getElem? hq2) hu
 
 /-! ### swiss_full_fails_clean -/
 
